@@ -1184,10 +1184,8 @@ theorem originNames_perm {a b : InkList} (h : a.items.Perm b.items)
     (a.originNames = none ∧ b.originNames = none) ∨
       ∃ x y, a.originNames = some x ∧ b.originNames = some y ∧ x.Perm y := by
   unfold InkList.originNames
-  rw [← perm_isEmpty h, ← h.all_eq, hio]
+  rw [← perm_isEmpty h, hio]
   split
   · exact Or.inr ⟨_, _, rfl, rfl, List.Perm.refl _⟩
-  · split
-    · exact Or.inr ⟨_, _, rfl, rfl, h.map _⟩
-    · exact Or.inl ⟨rfl, rfl⟩
+  · exact Or.inr ⟨_, _, rfl, rfl, h.filterMap _⟩
 end Ink
